@@ -128,7 +128,8 @@ func Snapshot(root string) ([]Node, error) {
 			}
 			n.Major, n.Minor = uint64(unix.Major(st.Rdev)), uint64(unix.Minor(st.Rdev))
 		default:
-			n.Kind = "other"
+			// FIFOs and sockets: desync's tar skips them (with a warning); they are not part of the tree an archive describes
+			return nil
 		}
 		out = append(out, n)
 		return nil
@@ -241,6 +242,13 @@ func Build(r *rand.Rand, root string, o Opts) error {
 				if !o.Devices {
 					os.WriteFile(p, nil, 0600)
 					fixes = append(fixes, attrs(p, false))
+					continue
+				}
+				if r.Intn(4) == 0 { // a FIFO or a socket: skipped by tar, must leave no trace in the archive
+					kind := []uint32{syscall.S_IFIFO, syscall.S_IFSOCK}[r.Intn(2)]
+					if err := unix.Mknod(p, kind|0600, 0); err != nil {
+						return err
+					}
 					continue
 				}
 				dv := [][3]uint32{{syscall.S_IFCHR, 1, 3}, {syscall.S_IFBLK, 8, 0}, {syscall.S_IFCHR, 4095, 1048575}}[r.Intn(3)]
